@@ -38,6 +38,7 @@ var mfGuard = guardSpec{
 }
 
 func c17(c *Ctx) {
+	c17FullReads(c, "C17.5/header-read-is-full")
 	c17RefCountedClose(c, "C17.4/chunk-closed-only-without-readers")
 	// a rewind that stays inside the write buffer moves an index INTO the buffer: with retryable sync the bytes already
 	// written to the file stay in front of it (wbufFlushedOffset > 0), so the new index is computed from the buffer
@@ -494,5 +495,48 @@ func c17RefCountedClose(c *Ctx, r string) {
 	}
 	if n < 2 {
 		c.undecided(r, "floor", fmt.Sprintf("%d underlying Close calls in refCountedApp found (Release, Close confirmed by hand)", n))
+	}
+}
+
+// c17FullReads: io.Reader.Read may return fewer bytes than asked without an error (bufio.Reader hands out at most
+// what one underlying read brought in: 4096 bytes). Where the appendables read a fixed-size or length-prefixed header
+// from a file, a Read whose byte count is thrown away leaves the tail of the buffer zeroed: metadata longer than the
+// reader's buffer does not survive a reopen. Such reads go through io.ReadFull (or look at the count).
+func c17FullReads(c *Ctx, r string) {
+	n := 0
+	for _, f := range c.allFns {
+		if !fnInPkgs(f, []string{"embedded/appendable/singleapp", "embedded/appendable/multiapp", "embedded/appendable/remoteapp"}) || len(f.Blocks) == 0 {
+			continue
+		}
+		per := 0
+		allInstrs(f, false, func(in ssa.Instruction) {
+			cl, ok := in.(*ssa.Call)
+			if !ok {
+				return
+			}
+			name := calleeName(&cl.Call)
+			isStdRead := name == "bufio.(*Reader).Read" || name == "os.(*File).Read" || (cl.Call.IsInvoke() && cl.Call.Method.Name() == "Read" && strings.HasPrefix(cl.Call.Value.Type().String(), "io."))
+			if name == "io.ReadFull" || name == "io.ReadAtLeast" {
+				n++
+				per++
+				c.ok(r, fmt.Sprintf("%s:Read#%d", fnName(f), per), c.pos(in.Pos()), name+" reads the whole buffer or fails")
+				return
+			}
+			if !isStdRead {
+				return
+			}
+			n++
+			per++
+			used := false
+			for _, rf := range *cl.Referrers() {
+				if ex, ok := rf.(*ssa.Extract); ok && ex.Index == 0 && len(*ex.Referrers()) > 0 {
+					used = true
+				}
+			}
+			c.check(used, r, fmt.Sprintf("%s:Read#%d", fnName(f), per), c.pos(in.Pos()), "the number of bytes read is looked at", "the byte count of "+name+" is discarded: a short read (bufio hands out at most one 4096-byte fill) leaves the rest of the buffer zeroed and is taken for the stored bytes")
+		})
+	}
+	if n < 2 {
+		c.undecided(r, "floor", fmt.Sprintf("%d header reads (Read / io.ReadFull) found in the appendables (2 in singleapp.Open when the rule was armed)", n))
 	}
 }
